@@ -30,6 +30,7 @@ type op struct {
 	K opKind `json:"k"`
 	C int    `json:"c"`
 	D int    `json:"d,omitempty"`
+	A bool   `json:"a,omitempty"` // waiting start that passes guard.BodyAuthID
 }
 
 var kindName = map[opKind]string{opStartW: "StartW", opStartN: "StartN", opRelOwn: "RelOwn", opRelStale: "RelStale", opRelPrev: "RelPrev", opRelBarge: "RelOwn+StartN-by"}
@@ -129,7 +130,13 @@ func runCase(ops []op, nclients int) (terms []string, human []string, nontrivial
 			before := len(guard.QueueSnapshot(g))
 			c.pending = true
 			c.ch = make(chan int64, 1)
-			go func(ch chan int64) { ch <- int64(g.StartTreasureGuard(true)) }(c.ch)
+			go func(ch chan int64, auth bool) {
+				if auth {
+					ch <- int64(g.StartTreasureGuard(true, guard.BodyAuthID))
+				} else {
+					ch <- int64(g.StartTreasureGuard(true))
+				}
+			}(c.ch, o.A)
 			// wait for the enqueue to be visible
 			dl := time.Now().Add(2 * time.Second)
 			for len(guard.QueueSnapshot(g)) == before && time.Now().Before(dl) {
@@ -346,8 +353,36 @@ func main() {
 		ops := make([]op, n)
 		for j := range ops {
 			ops[j] = al[rng.Intn(len(al))]
+			if ops[j].K == opStartW && rng.Chance(25) {
+				ops[j].A = true
+			}
 		}
 		emit(ops, ncl, "random")
+	}
+	// arrival order with body-authorised starts: 4-6 clients queue up (some pass BodyAuthID),
+	// then everybody releases; returns must follow the arrival order whatever the auth id
+	na := 150
+	if a.Tier == "thorough" {
+		na = 2000
+	}
+	for i := 0; i < na; i++ {
+		ncl := 4 + rng.Intn(3)
+		var ops []op
+		for c := 0; c < ncl; c++ {
+			ops = append(ops, op{K: opStartW, C: c, A: rng.Chance(40)})
+		}
+		for j := 0; j < ncl+rng.Intn(4); j++ {
+			c := rng.Intn(ncl)
+			switch rng.Intn(5) {
+			case 0:
+				ops = append(ops, op{K: opRelStale, C: c})
+			case 1:
+				ops = append(ops, op{K: opStartW, C: c, A: rng.Chance(60)})
+			default:
+				ops = append(ops, op{K: opRelOwn, C: j % ncl})
+			}
+		}
+		emit(ops, ncl, "auth")
 	}
 	// hand-over window: holder releases while waiters are parked and a non-waiting start arrives
 	// before the woken waiter runs
@@ -378,6 +413,9 @@ func opsHuman(ops []op) []string {
 	out := make([]string, len(ops))
 	for i, o := range ops {
 		out[i] = fmt.Sprintf("%s c%d", kindName[o.K], o.C)
+		if o.A {
+			out[i] += " (BodyAuthID)"
+		}
 		if o.K == opRelBarge {
 			out[i] += fmt.Sprintf(" c%d", o.D)
 		}
